@@ -284,9 +284,15 @@ def run_check(pid: str, tier: str, base_seed: int, runs: int | None = None, work
 
     exit_code = 0
     replay_paths = []
+    drift = []
     for sg, lst in known_seen:
         e = next(e for e in known if (e["rule"], e["key"]) == sg)
         print(f"KNOWN-FINDING: property={pid} rule={sg[0]} key={sg[1]} runs={len(lst)} {e.get('what', '')}")
+        # drift guard: a listed finding that suddenly shows in several times as many runs as it does on the tree it was recorded
+        # on is not "the listed finding" any more - another defect is producing the same signature and must not hide behind it
+        rate = e.get("rate")
+        if rate is not None and len(lst) > 3 * rate * tot["runs"] + 20:
+            drift.append((sg, lst, rate * tot["runs"]))
     min_budget = {"quick": 20.0, "thorough": 60.0}[tier]
     for sg, lst in unknown[:8]:
         s, v = lst[0]
@@ -299,6 +305,13 @@ def run_check(pid: str, tier: str, base_seed: int, runs: int | None = None, work
         path = write_replay(pid, mod, s, mplan, v, minimised, before, after)
         replay_paths.append(path)
         print(f"VIOLATION property={pid} replay={path} rule={sg[0]} key={sg[1]} runs={len(lst)} detail={v['detail'][:300]}")
+        exit_code = 1
+    for sg, lst, expected in drift:
+        s_, v = lst[0]
+        path = write_replay(pid, mod, s_, mod.gen_plan(s_, tier), v, False, 0, 0)
+        print(f"VIOLATION property={pid} replay={path} rule=known-finding-drift key={sg[0]}/{sg[1]} runs={len(lst)} "
+              f"detail=the listed finding {sg[0]} {sg[1]} shows in {len(lst)} of {tot['runs']} runs, about {expected:.0f} are expected from the "
+              f"tree it was recorded on: a different defect produces the same signature")
         exit_code = 1
     for sg, lst in unknown[8:]:
         print(f"VIOLATION property={pid} replay={replay_paths[0]} rule={sg[0]} key={sg[1]} runs={len(lst)} (not minimised; more than 8 signatures)")
@@ -329,7 +342,7 @@ def run_check(pid: str, tier: str, base_seed: int, runs: int | None = None, work
         },
         "assumptions": getattr(mod, "ASSUMPTIONS", []),
         "wall_s": round(wall, 3),
-        "violations": len(unknown),
+        "violations": len(unknown) + len(drift),
     }
     os.makedirs(EVIDENCE_DIR, exist_ok=True)
     with open(os.path.join(EVIDENCE_DIR, pid + ".json"), "w") as f:
